@@ -18,6 +18,8 @@ def run(ctx):
     scs = stackprop.corpus_scenarios("C11") + [scen.server_scenario(r) for _ in range(n)]
     r2 = random.Random(ctx.seed * 7919 + 11)      # a stream of its own: the scenarios above stay what they were
     scs += [scen.pair_in_one_message(r2) for _ in range(30 if quick else 1000)]
+    rll = random.Random(ctx.seed * 7919 + 111)     # a stream of its own
+    scs += [scen.link_local_twins(rll) for _ in range(30 if quick else 1000)]
     stackprop.run_scenarios(ctx, scs, 3011, CODES, what="subscribe acknowledgements")
 
 
